@@ -21,6 +21,20 @@ type c01Case struct {
 	Spec          gen.MsgSpec `json:"spec"`
 	Helper        bool        `json:"helper,omitempty"`         // cose.Sign1 / cose.Sign1Untagged helpers
 	DecodedParent bool        `json:"decoded_parent,omitempty"` // countersign a decoded (not constructed) parent
+	RawBody       bool        `json:"raw_body,omitempty"`       // the caller supplies Headers.RawProtected (a non-canonical encoding of the same map)
+}
+
+// revChooser encodes maps in reverse entry order with minimal heads: a valid
+// encoding that differs from the library's own whenever a map has two entries.
+type revChooser struct{}
+
+func (revChooser) Width(min int) int { return min }
+func (revChooser) Perm(n int) []int {
+	p := make([]int, n)
+	for i := range p {
+		p[i] = n - 1 - i
+	}
+	return p
 }
 
 func constructedHdrOpts() gen.HeaderOpts {
@@ -189,6 +203,10 @@ func checkC01(c c01Case) error {
 		return c01Decoded(&hs, wire, vs)
 	}
 	m = constructLib(spec)
+	if c.RawBody && len(spec.Prot.M) > 0 {
+		m.headers().RawProtected = rc.Encode(rc.Bytes(rc.Encode(spec.Prot, revChooser{})), nil)
+		stats.Class("caller-supplied-raw-protected")
+	}
 	if err := m.sign(ext, ss...); err != nil {
 		stats.Class("sign-refused/" + shortErr(err))
 		return nil
@@ -329,6 +347,7 @@ func TestC01_Random(t *testing.T) {
 		c := c01Case{Spec: gen.Msg(rt, c01Opts())}
 		c.Helper = rapid.IntRange(0, 3).Draw(rt, "helper") == 0
 		c.DecodedParent = rapid.Bool().Draw(rt, "decoded-parent")
+		c.RawBody = rapid.IntRange(0, 4).Draw(rt, "raw-body") == 0
 		stats.Eval()
 		judge(rt, "c01", c, checkC01)
 	})
